@@ -91,6 +91,38 @@ def run_one(args):
         shutil.rmtree(dst, ignore_errors=True)
 
 
+DIGEST_FILE = os.path.join(HERE, 'validated_digest.txt')
+
+
+def run_entries(entries, repo='/repo', jobs=16, verbose=False):
+    tmp = tempfile.mkdtemp(prefix='sqstatic-selftest-')
+    try:
+        with cf.ProcessPoolExecutor(max_workers=jobs) as ex:
+            return list(ex.map(run_one, [(e, repo, tmp, verbose) for e in entries]))
+    finally:
+        shutil.rmtree(tmp, ignore_errors=True)
+
+
+def for_property(prop: str, repo: str = '/repo', jobs: int = 16):
+    """Used by the thorough tier: re-validate the checker of one property against its corpus.
+
+    The corpus entries are textual patches; they only apply to the tree they were validated on."""
+    try:
+        recorded = open(DIGEST_FILE).read().strip()
+    except OSError:
+        recorded = ''
+    cur = tree_digest(repo)
+    if recorded != cur:
+        return {'ran': False, 'reason': 'the analysed tree differs from the one the corpus was validated on (digest %s... vs %s...); '
+                                        'corpus patches are textual, self-test skipped' % (cur[:12], recorded[:12])}
+    entries = [e for e in CORPUS if prop in e['props']]
+    res = run_entries(entries, repo, jobs)
+    return {'ran': True, 'entries': len(res), 'mutants': sum(1 for e in entries if e['expect'] == 'violation'),
+            'benign': sum(1 for e in entries if e['expect'] != 'violation'),
+            'passed': sum(1 for r in res if r[1] == 'PASS'), 'skipped': [r[0] for r in res if r[1] == 'SKIP'],
+            'failed': [{'id': r[0], 'why': r[2]} for r in res if r[1] == 'FAIL']}
+
+
 def main() -> int:
     ap = argparse.ArgumentParser()
     ap.add_argument('--repo', default='/repo')
@@ -98,18 +130,14 @@ def main() -> int:
     ap.add_argument('--prop')
     ap.add_argument('-j', type=int, default=16)
     ap.add_argument('-v', action='store_true')
+    ap.add_argument('--record', action='store_true', help='record the digest of the tree when everything passes')
     a = ap.parse_args()
     entries = CORPUS
     if a.only:
         entries = [e for e in entries if a.only in e['id']]
     if a.prop:
         entries = [e for e in entries if a.prop in e['props']]
-    tmp = tempfile.mkdtemp(prefix='sqstatic-selftest-')
-    try:
-        with cf.ProcessPoolExecutor(max_workers=a.j) as ex:
-            res = list(ex.map(run_one, [(e, a.repo, tmp, a.v) for e in entries]))
-    finally:
-        shutil.rmtree(tmp, ignore_errors=True)
+    res = run_entries(entries, a.repo, a.j, a.v)
     bad = 0
     for name, status, why, out in res:
         if status != 'PASS' or a.v:
@@ -122,6 +150,9 @@ def main() -> int:
     n = len(res)
     print('selftest: %d entries, %d pass, %d fail, %d skipped' % (
         n, sum(1 for r in res if r[1] == 'PASS'), bad, sum(1 for r in res if r[1] == 'SKIP')))
+    if a.record and not bad and not a.only and not a.prop:
+        open(DIGEST_FILE, 'w').write(tree_digest(a.repo) + '\n')
+        print('recorded digest of %s' % a.repo)
     return 1 if bad else 0
 
 
